@@ -48,14 +48,23 @@ def gen(rng, n):
         ts.add(rng.randint(-3 * D, 50 * D))
         ts.add(rng.randint(0, max(1, o)))
         ts.add(0)
+        dtype = None
+        if rng.random() < 0.2:
+            fits = [dt for dt, hi in (("int8", 127), ("int16", 32767), ("int32", 2**31 - 1), ("int64", 2**62))
+                    if max(d for _, d in els) <= hi]       # every single duration fits; their sum need not
+            dtype = rng.choice(fits)
         for t in ts:
-            cases.append({"op": "state", "els": els, "o": o, "t": int(t), "tt": rng.choice(["int", "int", "np.int64"]),
-                          "route": rng.choice(ROUTES), "croute": rng.choice(CYCLE_ROUTES)})
+            c = {"op": "state", "els": els, "o": o, "t": int(t), "tt": rng.choice(["int", "int", "np.int64"]),
+                 "route": rng.choice(ROUTES), "croute": rng.choice(CYCLE_ROUTES)}
+            if dtype:
+                c["dtype"] = dtype
+            cases.append(c)
     return cases[:n]
 
 
 def build(c):
-    els = [TrafficLightCycleElement(TrafficLightState[n], d) for n, d in c["els"]]
+    dt = c.get("dtype")      # durations handed over as numpy integer scalars (e.g. taken from a signal-plan array)
+    els = [TrafficLightCycleElement(TrafficLightState[n], d if dt is None else getattr(np, dt)(d)) for n, d in c["els"]]
     cr = c.get("croute", "ctor")
     if cr == "offset_setter":
         cyc = TrafficLightCycle(els)
